@@ -192,7 +192,73 @@ func isIfaceOrParam(t types.Type) bool {
 	return ok
 }
 
+// enterHelper follows a value that is the result of a small in-package helper (single return) into the helper's
+// body and returns the returned value together with the helper's type-parameter instantiation.
+func enterHelper(v ssa.Value, subst map[*types.TypeParam]types.Type) ssa.Value {
+	for d := 0; d < 3; d++ {
+		v = resolve(v, 0)
+		c, ok := v.(*ssa.Call)
+		if !ok {
+			return v
+		}
+		inst := c.Call.StaticCallee()
+		if inst == nil {
+			return v
+		}
+		cal := inst
+		if o := inst.Origin(); o != nil {
+			cal = o
+			tps := o.TypeParams()
+			targs := inst.TypeArgs()
+			for i := 0; i < tps.Len() && i < len(targs); i++ {
+				subst[tps.At(i)] = targs[i]
+			}
+		}
+		if cal.Blocks == nil || cal.Pkg == nil || cal.Pkg.Pkg.Path() != core.XsyncPath {
+			return v
+		}
+		var ret *ssa.Return
+		n := 0
+		core.Instrs(cal, func(in ssa.Instruction) {
+			if r, isRet := in.(*ssa.Return); isRet {
+				ret = r
+				n++
+			}
+		})
+		if n != 1 || len(ret.Results) != 1 {
+			return v
+		}
+		v = ret.Results[0]
+	}
+	return v
+}
+
+func applySubst(t types.Type, subst map[*types.TypeParam]types.Type) types.Type {
+	for i := 0; i < 4; i++ {
+		tp, ok := t.(*types.TypeParam)
+		if !ok {
+			return t
+		}
+		if u, ok := subst[tp]; ok {
+			t = u
+			continue
+		}
+		return t
+	}
+	return t
+}
+
 func classifyDesc(v ssa.Value) hashArg {
+	subst := map[*types.TypeParam]types.Type{}
+	v = enterHelper(v, subst)
+	h := classifyDescIn(v)
+	if h.T != nil {
+		h.T = applySubst(h.T, subst)
+	}
+	return h
+}
+
+func classifyDescIn(v ssa.Value) hashArg {
 	v = resolve(v, 0)
 	al, idx, ok := headerWord(v)
 	if !ok {
